@@ -154,6 +154,24 @@ CLAIMED = {
              "replay fidelity is therefore outside. One recorded known finding (client tracks the session from 62 f1 86 replies, the server does not).",
         ref="§4 C12", technique="symbolic execution of state tracking and replay cursor logic (CrossHair + z3)",
     ),
+    "C17": dict(
+        text="PARTIAL claim. Bounded symbolic execution (CrossHair + z3) of the real hr entry point (_main) and PenlogReader.records/__len__ on an in-memory stand-in "
+             "for the mmap'ed log: for logs of 0..4 records with symbolic priorities, symbolic threshold, symbolic line count and offset, forward / head / tail / reverse "
+             "reading yields exactly the corresponding slice of the priority-filtered sequence (each selected record once, in order, also when n exceeds the log); "
+             "level<->priority mapping is a bijection; records written by the real formatter and emit framing are read back with the same text, level, tags, timestamp.",
+        note="NOT claimed: zstd/gzip containers, real mmap, stdin/FIFO, arbitrary message text (8 concrete texts incl. newline, quotes, NUL, non-BMP, lone surrogate, 10 kB; "
+             "the write/read round trip is a solver-driven case split with concrete execution because json/datetime are C code). Two fixed defects.",
+        ref="§4 C17", technique="symbolic execution of the reader navigation (CrossHair + z3); case-split concrete round trip",
+    ),
+    "C20": dict(
+        text="Bounded solver-driven checking (CrossHair + z3) of range expressions (unravel, unravel_2d, both input forms of _process_ranges) over templates whose number "
+             "tokens stand for integers chosen by the solver, of integer notations (two symbolic digits in decimal, 0x, 0o, 0b, both cases), of "
+             "split_host_port(join_host_port(h, p)) and of TargetURI.from_parts -> text -> TargetURI -> qs_flat -> transport config for hsfz/doip/isotp with ports, "
+             "addresses and an integer-valued parameter in windows: every combination inside the windows is decided against a reference semantics.",
+        note="The string algebra (urllib, str.split, pydantic) runs concretely per case: the solver enumerates the bounded value space exhaustively (case split), it does not "
+             "reason about text symbolically. Arbitrary host text and values outside the windows are outside the claim. Three fixed defects.",
+        ref="§4 C20", technique="solver-driven exhaustive case split (CrossHair + z3) against reference range/URI semantics",
+    ),
     "C02": dict(
         text="Bounded symbolic execution (CrossHair + z3) of the real UDSResponse.parse_dynamic / from_pdu / pdu code: for every first byte "
              "0x00-0xFF and every total length in the stated bound, with all remaining bytes symbolic, every path is explored and the "
